@@ -189,10 +189,13 @@ policy's compliance check to keep port, cable and instance identifiers apart (on
 |---|---|---|
 ''' + rows_o + r'''
 
-All stem from the query layer's use of a single-element `lookup()` for exact patterns: the registered
+The C10 and C13 findings stem from the query layer's use of a single-element `lookup()` for exact patterns: the registered
 fast lookup answers for `EDIF.identifier` although the DEFAULT policy does not index it, a non-indexed key
 with duplicate values yields one element, and the hierarchical queries apply patterns only to results that
 went through their name map.  Each would need the same edit in five query modules; not "small and safe".
+The C11 finding (queries from a netlist whose top cell has been removed from it return references that report
+invalid) is of the same kind: the validity rule lives in `HRef.is_valid`, the five query functions would each need
+it, and which of the two is "right" for such a netlist is a decision for the maintainers.
 
 ### 9.7 Seeded property-breaking changes (independent sub-agents, property text only)
 
